@@ -2,8 +2,13 @@ package standard
 
 // Conformance driver for property C09 (spec/Auction.tla).  Injected with -overlay by /verif/check.
 //
-// The real builderbid/best and builderbid/deadline strategies run below the real block relay
-// service (AuctionBlock / BuilderBid).  Relays are in-process fakes registered through the overlay
+// One scenario = one HISTORY on ONE instance: a real builderbid/best or builderbid/deadline strategy
+// service below a real block relay service (AuctionBlock / BuilderBid), both created for the history
+// and used for all of its auctions (as main.go creates them once per process).  The same relay
+// addresses (and builder public keys) recur in every auction of the history with that auction's own
+// relay configurations (minimum value, public key, grace), builder catalogue and bids; auctions are run
+// one after the other or overlapping (the next AuctionBlock is called while the previous one is in
+// progress), BuilderBid is asked in between.  Nothing is shared between scenarios but the process.  Relays are in-process fakes registered through the overlay
 // seam util.VerifSetBuilderClient; their answers are real VersionedSignedBuilderBid objects signed
 // with harness BLS keys under the application-builder domain, so the strategies' own eligibility
 // and signature checks run.  Time is the observed quantity: every delivery and return instant is
@@ -30,6 +35,7 @@ import (
 	buildercapella "github.com/attestantio/go-builder-client/api/capella"
 	builderdeneb "github.com/attestantio/go-builder-client/api/deneb"
 	builderspec "github.com/attestantio/go-builder-client/spec"
+	consensusclient "github.com/attestantio/go-eth2-client"
 	consensusapi "github.com/attestantio/go-eth2-client/api"
 	consensusspec "github.com/attestantio/go-eth2-client/spec"
 	"github.com/attestantio/go-eth2-client/spec/bellatrix"
@@ -52,6 +58,7 @@ import (
 	"github.com/shopspring/decimal"
 	e2types "github.com/wealdtech/go-eth2-types/v2"
 	e2wtypes "github.com/wealdtech/go-eth2-wallet-types/v2"
+	"github.com/wealdtech/go-majordomo"
 	standardmajordomo "github.com/wealdtech/go-majordomo/standard"
 )
 
@@ -81,11 +88,22 @@ type c09BuilderCfg struct {
 	Fac    int64 `json:"fac"`
 }
 
+// c09KeyID is a (slot, parent, pubkey) key of the specification: small numbers per component.
+type c09KeyID struct {
+	S int `json:"s"`
+	P int `json:"p"`
+	V int `json:"v"`
+}
+
 type c09Step struct {
 	Ev       string                   `json:"ev"`
 	Variant  string                   `json:"variant"`
-	Key      int                      `json:"key"`
+	Prov     []bool                   `json:"prov"`
+	Mode     string                   `json:"mode"`
+	I        int                      `json:"i"`
+	Key      c09KeyID                 `json:"key"`
 	Cfg      []c09RelayCfg            `json:"cfg"`
+	Tab      string                   `json:"tab"`
 	Builders map[string]c09BuilderCfg `json:"builders"`
 	R        int                      `json:"r"`
 	N        int                      `json:"n"`
@@ -102,12 +120,13 @@ type c09Scenario struct {
 // timing
 
 const (
-	c09Timeout  = 400 * time.Millisecond // best: hard time-out (soft = half); deadline: deadline into the slot
-	c09Eps      = 100 * time.Millisecond // 25 % of the time-out
-	c09BidGap   = 25 * time.Millisecond
-	c09GraceDur = 30 * time.Millisecond
-	c09Noise    = 25 * time.Millisecond // scheduling lateness above which a run is repeated
-	c09Window   = 50 * time.Millisecond // a delivered bid is taken from the channel within this time (trace spec)
+	c09Timeout   = 400 * time.Millisecond // best: hard time-out (soft = half); deadline: deadline into the slot
+	c09Eps       = 100 * time.Millisecond // 25 % of the time-out
+	c09BidGap    = 25 * time.Millisecond
+	c09GraceDur  = 30 * time.Millisecond
+	c09Noise     = 25 * time.Millisecond // scheduling lateness above which a run is repeated
+	c09Window    = 50 * time.Millisecond // a delivered bid is taken from the channel within this time (trace spec)
+	c09HangAfter = 5 * time.Second       // an AuctionBlock / BuilderBid call that has not returned by then is recorded as Hung
 )
 
 // c09Phases returns the clock phases (0 before the soft time-out, 1 between soft and hard, 2 after
@@ -222,11 +241,14 @@ func (c *c09ChainTime) setStart(slot phase0.Slot, t time.Time) {
 }
 
 // ---------------------------------------------------------------------------------------------
-// execution configuration: proposer config per validator public key
+// execution configuration: proposer config per validator public key, as of now (the driver puts
+// the relay configurations of an auction in place right before it calls AuctionBlock and waits until
+// the service has fetched them)
 
 type c09ExecConfig struct {
 	mu      sync.RWMutex
 	configs map[phase0.BLSPubKey]*beaconblockproposer.ProposerConfig
+	fetched map[phase0.BLSPubKey]chan struct{}
 }
 
 func (c *c09ExecConfig) ProposerConfig(_ context.Context, _ e2wtypes.Account, pubkey phase0.BLSPubKey,
@@ -235,15 +257,22 @@ func (c *c09ExecConfig) ProposerConfig(_ context.Context, _ e2wtypes.Account, pu
 	c.mu.RLock()
 	defer c.mu.RUnlock()
 	if pc, ok := c.configs[pubkey]; ok {
+		select {
+		case c.fetched[pubkey] <- struct{}{}:
+		default:
+		}
 		return pc, nil
 	}
 	return &beaconblockproposer.ProposerConfig{FeeRecipient: fallbackFeeRecipient, Relays: []*beaconblockproposer.RelayConfig{}}, nil
 }
 
-func (c *c09ExecConfig) set(pubkey phase0.BLSPubKey, pc *beaconblockproposer.ProposerConfig) {
+func (c *c09ExecConfig) set(pubkey phase0.BLSPubKey, pc *beaconblockproposer.ProposerConfig) chan struct{} {
+	ch := make(chan struct{}, 1)
 	c.mu.Lock()
 	c.configs[pubkey] = pc
+	c.fetched[pubkey] = ch
 	c.mu.Unlock()
+	return ch
 }
 
 // ---------------------------------------------------------------------------------------------
@@ -258,73 +287,77 @@ type c09Key struct {
 type c09Delivery struct {
 	r, n int
 	a    c09Answer
-	d    time.Duration
+	d    time.Duration // since the origin of the auction
+	at   time.Time
 }
 
-type c09BidID struct{ r, n, k int }
+type c09BidID struct{ i, r, n int }
 
 type c09Scripted struct {
 	a      c09Answer
-	target time.Duration // earliest instant (relative to the start of the auction) of the reply
+	target time.Duration // earliest instant (relative to the origin of the auction) of the reply
 }
 
-// c09Auction is one AuctionBlock call of a scenario.
+// c09Auction is one AuctionBlock call of a history.
 type c09Auction struct {
-	k       int
-	key     c09Key
-	version consensusspec.DataVersion
-	scripts map[int][]c09Scripted
+	i              int
+	id             c09KeyID
+	key            c09Key
+	cfg            []c09RelayCfg
+	tab            string
+	version        consensusspec.DataVersion
+	builderConfigs map[phase0.BLSPubKey]*blockrelay.BuilderConfig
+	scripts        map[int][]c09Scripted
 
 	mu         sync.Mutex
-	t0         time.Time
+	origin     time.Time // the instant the time-outs of the auction count from
+	called     time.Time // the instant AuctionBlock was called
 	closed     bool
 	stop       chan struct{}
 	calls      map[int]int
 	deliveries []c09Delivery
-	bad        []string
-}
 
-// c09Run is the state shared by the fakes of one scenario.
-type c09Run struct {
-	h        *c09Harness
-	mu       sync.Mutex
-	auctions map[c09Key]*c09Auction
-	bids     map[*builderspec.VersionedSignedBuilderBid]c09BidID
-	bad      []string
+	done    chan struct{} // closed when AuctionBlock has returned (or panicked)
+	ret     time.Duration // since origin
+	retAt   time.Time
+	results *c09Results
+	crash   string
+	joined  bool
+	line    verifsupport.Ev // the Auction line of the trace
 }
 
 type c09Relay struct {
-	run    *c09Run
+	in     *c09Instance
 	id     int
 	addr   string
-	pubkey *phase0.BLSPubKey // what Pubkey() reports (nil unless the key source is "provider")
+	pubkey *phase0.BLSPubKey // what Pubkey() reports (nil unless the relay client knows its key itself)
 	sk     *e2types.BLSPrivateKey
 }
 
-func (r *c09Relay) Name() string               { return "c09" }
-func (r *c09Relay) Address() string            { return r.addr }
-func (r *c09Relay) Pubkey() *phase0.BLSPubKey  { return r.pubkey }
+func (r *c09Relay) Name() string              { return "c09" }
+func (r *c09Relay) Address() string           { return r.addr }
+func (r *c09Relay) Pubkey() *phase0.BLSPubKey { return r.pubkey }
 func (r *c09Relay) UnblindProposal(_ context.Context, _ *builderapi.UnblindProposalOpts) (*builderapi.Response[*consensusapi.VersionedSignedProposal], error) {
 	return nil, errors.New("not scripted")
 }
 
 func (r *c09Relay) BuilderBid(ctx context.Context, opts *builderapi.BuilderBidOpts) (*builderapi.Response[*builderspec.VersionedSignedBuilderBid], error) {
 	if opts == nil {
-		r.run.noteBad(fmt.Sprintf("relay %d: nil opts", r.id))
+		r.in.noteBad(fmt.Sprintf("relay %d: nil opts", r.id))
 		return nil, errors.New("nil opts")
 	}
-	r.run.mu.Lock()
-	au := r.run.auctions[c09Key{slot: opts.Slot, parent: opts.ParentHash, pubkey: opts.PubKey}]
-	r.run.mu.Unlock()
+	r.in.mu.Lock()
+	au := r.in.auctions[c09Key{slot: opts.Slot, parent: opts.ParentHash, pubkey: opts.PubKey}]
+	r.in.mu.Unlock()
 	if au == nil {
-		r.run.noteBad(fmt.Sprintf("relay %d: request for a key that is not being auctioned (slot %d)", r.id, opts.Slot))
+		r.in.noteBad(fmt.Sprintf("relay %d: request for a key that is not being auctioned (slot %d)", r.id, opts.Slot))
 		return nil, errors.New("unknown request")
 	}
 	au.mu.Lock()
 	au.calls[r.id]++
 	n := au.calls[r.id]
 	script := au.scripts[r.id]
-	t0 := au.t0
+	origin := au.origin
 	stop := au.stop
 	closed := au.closed
 	au.mu.Unlock()
@@ -341,7 +374,7 @@ func (r *c09Relay) BuilderBid(ctx context.Context, opts *builderapi.BuilderBidOp
 		}
 	}
 	item := script[n-1]
-	if wait := time.Until(t0.Add(item.target)); wait > 0 {
+	if wait := time.Until(origin.Add(item.target)); wait > 0 {
 		timer := time.NewTimer(wait)
 		select {
 		case <-timer.C:
@@ -360,7 +393,7 @@ func (r *c09Relay) BuilderBid(ctx context.Context, opts *builderapi.BuilderBidOp
 	case "nobid":
 		resp = &builderapi.Response[*builderspec.VersionedSignedBuilderBid]{Metadata: map[string]any{}}
 	default:
-		bid = r.run.h.makeBid(r, au, item.a)
+		bid = r.in.makeBid(r, au, item.a)
 		resp = &builderapi.Response[*builderspec.VersionedSignedBuilderBid]{Data: bid, Metadata: map[string]any{}}
 	}
 	au.mu.Lock()
@@ -369,36 +402,31 @@ func (r *c09Relay) BuilderBid(ctx context.Context, opts *builderapi.BuilderBidOp
 		return nil, errors.New("auction over")
 	}
 	if bid != nil {
-		r.run.mu.Lock()
-		r.run.bids[bid] = c09BidID{r: r.id, n: n, k: au.k}
-		r.run.mu.Unlock()
+		r.in.mu.Lock()
+		r.in.bids[bid] = c09BidID{i: au.i, r: r.id, n: n}
+		r.in.mu.Unlock()
 	}
-	au.deliveries = append(au.deliveries, c09Delivery{r: r.id, n: n, a: item.a, d: time.Since(t0)})
+	now := time.Now()
+	au.deliveries = append(au.deliveries, c09Delivery{r: r.id, n: n, a: item.a, d: now.Sub(origin), at: now})
 	au.mu.Unlock()
 	return resp, err
 }
 
-func (run *c09Run) noteBad(what string) {
-	run.mu.Lock()
-	run.bad = append(run.bad, what)
-	run.mu.Unlock()
-}
-
 // ---------------------------------------------------------------------------------------------
-// harness: the real services, built once per builder table
+// what all histories share: keys and providers that are not part of the instance under test
 
-type c09Harness struct {
-	t          *testing.T
-	ctx        context.Context
-	chainTime  *c09ChainTime
-	execConfig *c09ExecConfig
-	services   map[string]*Service // by variant
-	domain     phase0.Domain
-	builders   map[string]phase0.BLSPubKey
-	badSig     phase0.BLSSignature
-	otherKey   *e2types.BLSPrivateKey
-	nextSlot   uint64
-	slotMu     sync.Mutex
+type c09Env struct {
+	t              *testing.T
+	ctx            context.Context
+	specProvider   consensusclient.SpecProvider
+	domainProvider consensusclient.DomainProvider
+	majordomo      majordomo.Service
+	domain         phase0.Domain
+	badSig         phase0.BLSSignature
+	otherKey       *e2types.BLSPrivateKey
+	relayKeys      []*e2types.BLSPrivateKey
+	slotMu         sync.Mutex
+	nextSlot       uint64
 }
 
 func c09BuilderPubkey(name string) phase0.BLSPubKey {
@@ -419,24 +447,19 @@ func c09PrivateKey(t *testing.T, tag string) *e2types.BLSPrivateKey {
 	return sk
 }
 
-func c09NewHarness(t *testing.T, ctx context.Context, table map[string]c09BuilderCfg) *c09Harness {
-	h := &c09Harness{
-		t:          t,
-		ctx:        ctx,
-		chainTime:  &c09ChainTime{ChainTime: verifsupport.NewChainTime(32, 12*time.Second), starts: map[phase0.Slot]time.Time{}},
-		execConfig: &c09ExecConfig{configs: map[phase0.BLSPubKey]*beaconblockproposer.ProposerConfig{}},
-		services:   map[string]*Service{},
-		builders:   map[string]phase0.BLSPubKey{},
-		nextSlot:   1000,
-	}
-	specProvider := mock.NewSpecProvider()
-	domainProvider := mock.NewDomainProvider()
-	d, err := domainProvider.GenesisDomain(ctx, phase0.DomainType{0x00, 0x00, 0x00, 0x01})
+func c09NewEnv(t *testing.T, ctx context.Context) *c09Env {
+	e := &c09Env{t: t, ctx: ctx, nextSlot: 1000}
+	e.specProvider = mock.NewSpecProvider()
+	e.domainProvider = mock.NewDomainProvider()
+	d, err := e.domainProvider.GenesisDomain(ctx, phase0.DomainType{0x00, 0x00, 0x00, 0x01})
 	if err != nil {
 		t.Fatalf("domain: %v", err)
 	}
-	h.domain = d
-	h.otherKey = c09PrivateKey(t, "other")
+	e.domain = d
+	e.otherKey = c09PrivateKey(t, "other")
+	for i := 1; i <= 8; i++ {
+		e.relayKeys = append(e.relayKeys, c09PrivateKey(t, fmt.Sprintf("relay %d", i)))
+	}
 	// A signature that does not deserialise.
 	found := false
 	for b := 0; b < 256 && !found; b++ {
@@ -445,18 +468,173 @@ func c09NewHarness(t *testing.T, ctx context.Context, table map[string]c09Builde
 			sig[i] = byte(b)
 		}
 		if _, err := e2types.BLSSignatureFromBytes(sig[:]); err != nil {
-			h.badSig = sig
+			e.badSig = sig
 			found = true
 		}
 	}
 	if !found {
 		t.Fatalf("no undeserialisable signature found")
 	}
+	majordomoSvc, err := standardmajordomo.New(ctx)
+	if err != nil {
+		t.Fatalf("majordomo: %v", err)
+	}
+	e.majordomo = majordomoSvc
+	return e
+}
 
-	builderConfigs := map[phase0.BLSPubKey]*blockrelay.BuilderConfig{}
+// slots hands out the base slot of a history (histories never share slots).
+func (e *c09Env) slots() phase0.Slot {
+	e.slotMu.Lock()
+	defer e.slotMu.Unlock()
+	e.nextSlot += 8
+	return phase0.Slot(e.nextSlot)
+}
+
+// ---------------------------------------------------------------------------------------------
+// the instance under test: ONE strategy service and ONE block relay service per history
+
+// c09Provider sits between the block relay service and the real strategy: the builder catalogue is a
+// parameter of the strategy call (the block relay service passes the catalogue it was created with);
+// every auction of a history is run with its own.
+type c09Provider struct {
+	real builderbid.Provider
+	in   *c09Instance
+}
+
+func (p *c09Provider) BuilderBid(ctx context.Context, slot phase0.Slot, parentHash phase0.Hash32, pubkey phase0.BLSPubKey,
+	proposerConfig *beaconblockproposer.ProposerConfig, builderConfigs map[phase0.BLSPubKey]*blockrelay.BuilderConfig,
+) (*blockauctioneer.Results, error) {
+	p.in.mu.Lock()
+	au := p.in.auctions[c09Key{slot: slot, parent: parentHash, pubkey: pubkey}]
+	p.in.mu.Unlock()
+	if au != nil {
+		builderConfigs = au.builderConfigs
+	}
+	return p.real.BuilderBid(ctx, slot, parentHash, pubkey, proposerConfig, builderConfigs)
+}
+
+type c09Instance struct {
+	env        *c09Env
+	ctx        context.Context
+	cancel     context.CancelFunc
+	variant    string
+	chainTime  *c09ChainTime
+	execConfig *c09ExecConfig
+	svc        *Service
+	relays     []*c09Relay
+	addrToID   map[string]int
+	baseSlot   phase0.Slot
+	uniq       string
+
+	mu       sync.Mutex
+	auctions map[c09Key]*c09Auction
+	bids     map[*builderspec.VersionedSignedBuilderBid]c09BidID
+	bad      []string
+}
+
+func (in *c09Instance) noteBad(what string) {
+	in.mu.Lock()
+	in.bad = append(in.bad, what)
+	in.mu.Unlock()
+}
+
+func (e *c09Env) newInstance(variant string, prov []bool, uniq string) *c09Instance {
+	t := e.t
+	ctx, cancel := context.WithCancel(e.ctx)
+	in := &c09Instance{
+		env: e, ctx: ctx, cancel: cancel, variant: variant, uniq: uniq,
+		chainTime:  &c09ChainTime{ChainTime: verifsupport.NewChainTime(32, 12*time.Second), starts: map[phase0.Slot]time.Time{}},
+		execConfig: &c09ExecConfig{configs: map[phase0.BLSPubKey]*beaconblockproposer.ProposerConfig{}, fetched: map[phase0.BLSPubKey]chan struct{}{}},
+		addrToID:   map[string]int{},
+		baseSlot:   e.slots(),
+		auctions:   map[c09Key]*c09Auction{},
+		bids:       map[*builderspec.VersionedSignedBuilderBid]c09BidID{},
+	}
+	var strategy builderbid.Provider
+	var err error
+	if variant == "deadline" {
+		strategy, err = deadlinebuilderbid.New(ctx,
+			deadlinebuilderbid.WithLogLevel(zerolog.Disabled),
+			deadlinebuilderbid.WithMonitor(nullmetrics.New()),
+			deadlinebuilderbid.WithSpecProvider(e.specProvider),
+			deadlinebuilderbid.WithDomainProvider(e.domainProvider),
+			deadlinebuilderbid.WithChainTime(in.chainTime),
+			deadlinebuilderbid.WithDeadline(c09Timeout),
+			deadlinebuilderbid.WithBidGap(c09BidGap),
+			deadlinebuilderbid.WithReleaseVersion("verif"),
+		)
+	} else {
+		strategy, err = bestbuilderbid.New(ctx,
+			bestbuilderbid.WithLogLevel(zerolog.Disabled),
+			bestbuilderbid.WithMonitor(nullmetrics.New()),
+			bestbuilderbid.WithSpecProvider(e.specProvider),
+			bestbuilderbid.WithDomainProvider(e.domainProvider),
+			bestbuilderbid.WithChainTime(in.chainTime),
+			bestbuilderbid.WithTimeout(c09Timeout),
+			bestbuilderbid.WithReleaseVersion("verif"),
+		)
+	}
+	if err != nil {
+		t.Fatalf("%s strategy: %v", variant, err)
+	}
+	s, err := New(ctx,
+		WithLogLevel(zerolog.Disabled),
+		WithMonitor(nullmetrics.New()),
+		WithMajordomo(e.majordomo),
+		WithScheduler(verifsupport.NewScheduler()),
+		WithListenAddress("127.0.0.1:0"),
+		WithChainTime(in.chainTime),
+		WithFallbackFeeRecipient(bellatrix.ExecutionAddress{0x01}),
+		WithFallbackGasLimit(30000000),
+		WithAccountsProvider(mockaccountmanager.NewAccountsProvider()),
+		WithValidatorsProvider(mock.NewValidatorsProvider()),
+		WithValidatingAccountsProvider(mockaccountmanager.NewValidatingAccountsProvider()),
+		WithValidatorRegistrationSigner(mocksigner.New()),
+		WithReleaseVersion("verif"),
+		WithBuilderBidProvider(&c09Provider{real: strategy, in: in}),
+		WithBuilderConfigs(map[phase0.BLSPubKey]*blockrelay.BuilderConfig{}),
+	)
+	if err != nil {
+		t.Fatalf("block relay service: %v", err)
+	}
+	s.executionConfigMu.Lock()
+	s.executionConfig = in.execConfig
+	s.executionConfigMu.Unlock()
+	in.svc = s
+
+	// The relays of this instance: the SAME addresses (and clients) in every auction of the history.
+	for i := range prov {
+		sk := e.relayKeys[i]
+		rel := &c09Relay{in: in, id: i + 1, addr: fmt.Sprintf("http://relay%d.%s.verif", i+1, uniq), sk: sk}
+		if prov[i] {
+			var pub phase0.BLSPubKey
+			copy(pub[:], sk.PublicKey().Marshal())
+			rel.pubkey = &pub
+		}
+		in.relays = append(in.relays, rel)
+		in.addrToID[rel.addr] = rel.id
+		util.VerifSetBuilderClient(rel.addr, rel)
+	}
+	return in
+}
+
+func c09Hash(tag string, i int) (res [32]byte) {
+	return sha256.Sum256([]byte(fmt.Sprintf("c09 %s %d", tag, i)))
+}
+
+// keyOf maps a key of the specification to a real (slot, parent, pubkey) of this instance: keys that
+// agree in a component agree in the real component.
+func (in *c09Instance) keyOf(id c09KeyID) c09Key {
+	key := c09Key{slot: in.baseSlot + phase0.Slot(id.S), parent: phase0.Hash32(c09Hash("parent "+in.uniq, id.P))}
+	pk := c09Hash("validator "+in.uniq, id.V)
+	copy(key.pubkey[:], pk[:])
+	return key
+}
+
+func c09BuilderConfigs(table map[string]c09BuilderCfg) map[phase0.BLSPubKey]*blockrelay.BuilderConfig {
+	res := map[phase0.BLSPubKey]*blockrelay.BuilderConfig{}
 	for name, bc := range table {
-		pk := c09BuilderPubkey(name)
-		h.builders[name] = pk
 		if !bc.HasOff && !bc.HasFac {
 			continue // absent from the configuration
 		}
@@ -467,85 +645,43 @@ func c09NewHarness(t *testing.T, ctx context.Context, table map[string]c09Builde
 		if bc.HasFac {
 			cfg.Factor = big.NewInt(bc.Fac)
 		}
-		builderConfigs[pk] = cfg
+		res[c09BuilderPubkey(name)] = cfg
 	}
+	return res
+}
 
-	best, err := bestbuilderbid.New(ctx,
-		bestbuilderbid.WithLogLevel(zerolog.Disabled),
-		bestbuilderbid.WithMonitor(nullmetrics.New()),
-		bestbuilderbid.WithSpecProvider(specProvider),
-		bestbuilderbid.WithDomainProvider(domainProvider),
-		bestbuilderbid.WithChainTime(h.chainTime),
-		bestbuilderbid.WithTimeout(c09Timeout),
-		bestbuilderbid.WithReleaseVersion("verif"),
-	)
-	if err != nil {
-		t.Fatalf("best strategy: %v", err)
-	}
-	dl, err := deadlinebuilderbid.New(ctx,
-		deadlinebuilderbid.WithLogLevel(zerolog.Disabled),
-		deadlinebuilderbid.WithMonitor(nullmetrics.New()),
-		deadlinebuilderbid.WithSpecProvider(specProvider),
-		deadlinebuilderbid.WithDomainProvider(domainProvider),
-		deadlinebuilderbid.WithChainTime(h.chainTime),
-		deadlinebuilderbid.WithDeadline(c09Timeout),
-		deadlinebuilderbid.WithBidGap(c09BidGap),
-		deadlinebuilderbid.WithReleaseVersion("verif"),
-	)
-	if err != nil {
-		t.Fatalf("deadline strategy: %v", err)
-	}
-	majordomoSvc, err := standardmajordomo.New(ctx)
-	if err != nil {
-		t.Fatalf("majordomo: %v", err)
-	}
-	for variant, provider := range map[string]builderbid.Provider{"best": best, "deadline": dl} {
-		s, err := New(ctx,
-			WithLogLevel(zerolog.Disabled),
-			WithMonitor(nullmetrics.New()),
-			WithMajordomo(majordomoSvc),
-			WithScheduler(verifsupport.NewScheduler()),
-			WithListenAddress("127.0.0.1:0"),
-			WithChainTime(h.chainTime),
-			WithFallbackFeeRecipient(bellatrix.ExecutionAddress{0x01}),
-			WithFallbackGasLimit(30000000),
-			WithAccountsProvider(mockaccountmanager.NewAccountsProvider()),
-			WithValidatorsProvider(mock.NewValidatorsProvider()),
-			WithValidatingAccountsProvider(mockaccountmanager.NewValidatingAccountsProvider()),
-			WithValidatorRegistrationSigner(mocksigner.New()),
-			WithReleaseVersion("verif"),
-			WithBuilderBidProvider(provider),
-			WithBuilderConfigs(builderConfigs),
-		)
-		if err != nil {
-			t.Fatalf("block relay service: %v", err)
+// relayConfigs generates the relay configurations of one auction (new objects for every auction, as the
+// execution configuration does).
+func (in *c09Instance) relayConfigs(cfg []c09RelayCfg) []*beaconblockproposer.RelayConfig {
+	res := make([]*beaconblockproposer.RelayConfig, len(cfg))
+	for i, c := range cfg {
+		rel := in.relays[i]
+		rc := &beaconblockproposer.RelayConfig{
+			Address:      rel.addr,
+			FeeRecipient: bellatrix.ExecutionAddress{0x01},
+			GasLimit:     30000000,
+			MinValue:     decimal.NewFromInt(c.Min),
 		}
-		s.executionConfigMu.Lock()
-		s.executionConfig = h.execConfig
-		s.executionConfigMu.Unlock()
-		h.services[variant] = s
+		if c.Key == "config" {
+			var pub phase0.BLSPubKey
+			copy(pub[:], rel.sk.PublicKey().Marshal())
+			rc.PublicKey = &pub
+		}
+		if c.Grace > 0 {
+			rc.Grace = c09GraceDur
+		}
+		res[i] = rc
 	}
-	return h
-}
-
-func (h *c09Harness) slot() phase0.Slot {
-	h.slotMu.Lock()
-	defer h.slotMu.Unlock()
-	h.nextSlot += 3
-	return phase0.Slot(h.nextSlot)
-}
-
-func c09Hash(tag string, i int) (res [32]byte) {
-	return sha256.Sum256([]byte(fmt.Sprintf("c09 %s %d", tag, i)))
+	return res
 }
 
 // makeBid builds and signs a real bid for answer a of relay r in auction au.
-func (h *c09Harness) makeBid(r *c09Relay, au *c09Auction, a c09Answer) *builderspec.VersionedSignedBuilderBid {
+func (in *c09Instance) makeBid(r *c09Relay, au *c09Auction, a c09Answer) *builderspec.VersionedSignedBuilderBid {
 	feeRecipient := bellatrix.ExecutionAddress{}
 	if !a.FeeZero {
 		feeRecipient = bellatrix.ExecutionAddress{0x11, 0x22, 0x33}
 	}
-	timestamp := uint64(h.chainTime.StartOfSlot(au.key.slot).Unix())
+	timestamp := uint64(in.chainTime.StartOfSlot(au.key.slot).Unix())
 	if !a.TsOk {
 		timestamp += 12 // the start of the next slot
 	}
@@ -555,7 +691,7 @@ func (h *c09Harness) makeBid(r *c09Relay, au *c09Auction, a c09Answer) *builders
 	stateRoot := c09Hash("state", a.Hdr)
 	txRoot := phase0.Root(c09Hash("tx", a.Hdr))
 	value := uint256.NewInt(uint64(a.Val))
-	builder := h.builders[a.Bld]
+	builder := c09BuilderPubkey(a.Bld)
 
 	bid := &builderspec.VersionedSignedBuilderBid{Version: au.version}
 	switch au.version {
@@ -592,19 +728,19 @@ func (h *c09Harness) makeBid(r *c09Relay, au *c09Auction, a c09Answer) *builders
 	var sig phase0.BLSSignature
 	switch a.Sig {
 	case "unverifiable":
-		sig = h.badSig
+		sig = in.env.badSig
 	default:
 		root, err := bid.MessageHashTreeRoot()
 		if err != nil {
 			panic(fmt.Sprintf("c09: message root: %v", err))
 		}
-		signingRoot, err := (&phase0.SigningData{ObjectRoot: root, Domain: h.domain}).HashTreeRoot()
+		signingRoot, err := (&phase0.SigningData{ObjectRoot: root, Domain: in.env.domain}).HashTreeRoot()
 		if err != nil {
 			panic(fmt.Sprintf("c09: signing root: %v", err))
 		}
 		sk := r.sk
 		if a.Sig == "invalid" {
-			sk = h.otherKey
+			sk = in.env.otherKey
 		}
 		copy(sig[:], sk.Sign(signingRoot[:]).Marshal())
 	}
@@ -620,32 +756,7 @@ func (h *c09Harness) makeBid(r *c09Relay, au *c09Auction, a c09Answer) *builders
 }
 
 // ---------------------------------------------------------------------------------------------
-// one scenario
-
-type c09AuctionPlan struct {
-	k       int
-	scripts map[int][]c09Step // relay -> Deliver steps in order
-}
-
-func c09Plan(sc c09Scenario) (variant string, cfg []c09RelayCfg, plans []*c09AuctionPlan, serves []int) {
-	var cur *c09AuctionPlan
-	for _, st := range sc.Steps {
-		switch st.Ev {
-		case "Reset":
-			variant, cfg = st.Variant, st.Cfg
-			cur = &c09AuctionPlan{k: st.Key, scripts: map[int][]c09Step{}}
-			plans = append(plans, cur)
-		case "Auction":
-			cur = &c09AuctionPlan{k: st.Key, scripts: map[int][]c09Step{}}
-			plans = append(plans, cur)
-		case "Deliver":
-			cur.scripts[st.R] = append(cur.scripts[st.R], st)
-		case "Serve":
-			serves = append(serves, st.Key)
-		}
-	}
-	return
-}
+// one history
 
 // c09Target is the intended reply instant of an answer delivered in clock phase ph.
 func c09Target(rng *rand.Rand, variant string, ph int) time.Duration {
@@ -666,225 +777,341 @@ func c09Target(rng *rand.Rand, variant string, ph int) time.Duration {
 	return ms(200, 280)
 }
 
-func (h *c09Harness) runScenario(sc c09Scenario, w *c09Watch, attempt int) (events []verifsupport.Ev, noisy bool) {
-	began := time.Now()
-	variant, cfg, plans, serves := c09Plan(sc)
-	rng := rand.New(rand.NewSource(verifsupport.Seed()*1000003 + int64(sc.Sc)*7919 + int64(attempt)))
-	widen := attempt >= 3
-	svc := h.services[variant]
-	run := &c09Run{h: h, auctions: map[c09Key]*c09Auction{}, bids: map[*builderspec.VersionedSignedBuilderBid]c09BidID{}}
-	uniq := fmt.Sprintf("s%d-a%d-%d", sc.Sc, attempt, rng.Int63())
+// c09Timed is a group of trace lines with the instant that orders it among the others.
+type c09Timed struct {
+	at  time.Time
+	evs []verifsupport.Ev
+}
 
-	// Relays of this scenario.
-	relays := make([]*c09Relay, len(cfg))
-	relayCfgs := make([]*beaconblockproposer.RelayConfig, len(cfg))
-	addrToID := map[string]int{}
-	for i, c := range cfg {
-		sk := c09PrivateKey(h.t, fmt.Sprintf("relay %d", i+1))
-		var pub phase0.BLSPubKey
-		copy(pub[:], sk.PublicKey().Marshal())
-		rel := &c09Relay{run: run, id: i + 1, addr: fmt.Sprintf("http://relay%d.%s.verif", i+1, uniq), sk: sk}
-		rc := &beaconblockproposer.RelayConfig{
-			Address:      rel.addr,
-			FeeRecipient: bellatrix.ExecutionAddress{0x01},
-			GasLimit:     30000000,
-			MinValue:     decimal.NewFromInt(c.Min),
+// start calls AuctionBlock for au on its own goroutine and returns once the service has fetched the
+// relay configurations of this auction.
+func (in *c09Instance) start(au *c09Auction) {
+	fetched := in.execConfig.set(au.key.pubkey, &beaconblockproposer.ProposerConfig{
+		FeeRecipient: bellatrix.ExecutionAddress{0x01}, Relays: in.relayConfigs(au.cfg)})
+	// The slot of an auction starts when the (first) auction for it starts: the deadline strategy counts its
+	// deadline from the slot start, the best strategy its time-outs from the call.  Two auctions of one slot
+	// that overlap share the slot start.
+	now := time.Now()
+	slotStart := now
+	in.mu.Lock()
+	for _, other := range in.auctions {
+		other.mu.Lock()
+		if other.key.slot == au.key.slot && !other.closed {
+			slotStart = in.chainTime.StartOfSlot(au.key.slot)
 		}
-		switch c.Key {
-		case "config":
-			k := pub
-			rc.PublicKey = &k
-		case "provider":
-			k := pub
-			rel.pubkey = &k
-		}
-		if c.Grace > 0 {
-			rc.Grace = c09GraceDur
-		}
-		relays[i], relayCfgs[i] = rel, rc
-		addrToID[rel.addr] = rel.id
-		util.VerifSetBuilderClient(rel.addr, rel)
+		other.mu.Unlock()
 	}
-
-	// Keys: key 1 is the base (slot, parent, pubkey); every other key differs from it in exactly one
-	// component, so that a cache keyed on less than all three serves the wrong auction's bid.
-	version := []consensusspec.DataVersion{consensusspec.DataVersionBellatrix, consensusspec.DataVersionCapella, consensusspec.DataVersionDeneb}[rng.Intn(3)]
-	baseSlot := h.slot()
-	diff := []string{"slot", "parent", "pubkey"}[rng.Intn(3)]
-	keyOf := func(k int) c09Key {
-		key := c09Key{slot: baseSlot, parent: phase0.Hash32(c09Hash("parent "+uniq, 1)), pubkey: phase0.BLSPubKey{}}
-		pk := c09Hash("validator "+uniq, 1)
-		copy(key.pubkey[:], pk[:])
-		if k != 1 {
-			switch diff {
-			case "slot":
-				key.slot = baseSlot + phase0.Slot(k-1)
-			case "parent":
-				key.parent = phase0.Hash32(c09Hash("parent "+uniq, k))
-			default:
-				pk := c09Hash("validator "+uniq, k)
-				copy(key.pubkey[:], pk[:])
-			}
-		}
-		return key
+	in.mu.Unlock()
+	if slotStart.Equal(now) {
+		in.chainTime.setStart(au.key.slot, now)
 	}
-	keys := map[int]c09Key{}
-	byKey := map[int]*c09Auction{}
-
-	emit := func(ev verifsupport.Ev) {
-		ev["sc"] = sc.Sc
-		events = append(events, ev)
+	au.mu.Lock()
+	au.called = now
+	au.origin = now
+	if in.variant == "deadline" {
+		au.origin = slotStart
 	}
-	first := true
-	crashed := false
+	au.mu.Unlock()
+	in.mu.Lock()
+	in.auctions[au.key] = au
+	in.mu.Unlock()
 
-	for _, plan := range plans {
-		key := keyOf(plan.k)
-		keys[plan.k] = key
-		au := &c09Auction{k: plan.k, key: key, version: version, scripts: map[int][]c09Scripted{}, stop: make(chan struct{}), calls: map[int]int{}}
-		for r, steps := range plan.scripts {
-			last := time.Duration(0)
-			for _, st := range steps {
-				tg := c09Target(rng, variant, st.Ph)
-				if tg < last {
-					tg = last
+	go func() {
+		defer close(au.done)
+		defer func() {
+			if p := recover(); p != nil {
+				au.mu.Lock()
+				au.crash = fmt.Sprint(p)
+				if !au.closed {
+					au.closed = true
+					close(au.stop)
 				}
-				last = tg
-				au.scripts[r] = append(au.scripts[r], c09Scripted{a: st.A, target: tg})
-			}
-			// A relay that is polled again usually answers with the same bid again: now and then the
-			// last answer is repeated (a new, identical object) once or twice before the relay goes silent.
-			if variant == "deadline" && len(au.scripts[r]) > 0 && rng.Intn(2) == 0 {
-				lastItem := au.scripts[r][len(au.scripts[r])-1]
-				for k := 1 + rng.Intn(2); k > 0; k-- {
-					au.scripts[r] = append(au.scripts[r], lastItem)
-				}
-			}
-		}
-		run.mu.Lock()
-		run.auctions[key] = au
-		run.mu.Unlock()
-		byKey[plan.k] = au
-		h.execConfig.set(key.pubkey, &beaconblockproposer.ProposerConfig{FeeRecipient: bellatrix.ExecutionAddress{0x01}, Relays: relayCfgs})
-
-		if first {
-			cfgOut := make([]map[string]interface{}, len(cfg))
-			for i, c := range cfg {
-				cfgOut[i] = map[string]interface{}{"min": c.Min, "key": c.Key, "grace": c.Grace}
-			}
-			emit(verifsupport.Ev{"ev": "Reset", "variant": variant, "key": plan.k, "cfg": cfgOut, "version": version.String(), "diff": diff, "attempt": attempt})
-			first = false
-		} else {
-			emit(verifsupport.Ev{"ev": "Auction", "key": plan.k})
-		}
-
-		t0 := time.Now()
-		h.chainTime.setStart(key.slot, t0)
-		au.mu.Lock()
-		au.t0 = t0
-		au.mu.Unlock()
-
-		var ret time.Duration
-		var results *c09Results
-		func() {
-			defer func() {
-				if p := recover(); p != nil {
-					crashed = true
-					emit(verifsupport.Ev{"ev": "Crash", "what": fmt.Sprint(p)})
-				}
-			}()
-			r, err := svc.AuctionBlock(h.ctx, key.slot, key.parent, key.pubkey)
-			au.mu.Lock()
-			ret = time.Since(t0)
-			au.closed = true
-			close(au.stop)
-			au.mu.Unlock()
-			results = &c09Results{err: err}
-			if r != nil {
-				results.fill(r, run, addrToID)
+				au.mu.Unlock()
 			}
 		}()
-		if crashed {
+		r, err := in.svc.AuctionBlock(in.ctx, au.key.slot, au.key.parent, au.key.pubkey)
+		au.mu.Lock()
+		au.retAt = time.Now()
+		au.ret = au.retAt.Sub(au.origin)
+		au.closed = true
+		close(au.stop)
+		au.mu.Unlock()
+		res := &c09Results{err: err}
+		if r != nil {
+			res.fill(r, in, au)
+		}
+		au.mu.Lock()
+		au.results = res
+		au.mu.Unlock()
+	}()
+	select {
+	case <-fetched:
+	case <-au.done:
+	case <-time.After(c09HangAfter):
+	}
+}
+
+func (e *c09Env) runHistory(sc c09Scenario, w *c09Watch, attempt int) (events []verifsupport.Ev, noisy bool) {
+	began := time.Now()
+	reset := sc.Steps[0]
+	variant := reset.Variant
+	rng := rand.New(rand.NewSource(verifsupport.Seed()*1000003 + int64(sc.Sc)*7919 + int64(attempt)))
+	widen := attempt >= 3
+	uniq := fmt.Sprintf("s%d-a%d-%d", sc.Sc, attempt, rng.Int63())
+	in := e.newInstance(variant, reset.Prov, uniq)
+	defer in.cancel()
+	version := []consensusspec.DataVersion{consensusspec.DataVersionBellatrix, consensusspec.DataVersionCapella, consensusspec.DataVersionDeneb}[rng.Intn(3)]
+
+	// The auctions of the history, with the answers of every relay in order.
+	aucs := map[int]*c09Auction{}
+	for _, st := range sc.Steps {
+		switch st.Ev {
+		case "Auction":
+			aucs[st.I] = &c09Auction{i: st.I, id: st.Key, key: in.keyOf(st.Key), cfg: st.Cfg, tab: st.Tab, version: version,
+				builderConfigs: c09BuilderConfigs(st.Builders), scripts: map[int][]c09Scripted{},
+				stop: make(chan struct{}), calls: map[int]int{}, done: make(chan struct{})}
+		case "Deliver":
+			au := aucs[st.I]
+			if au == nil {
+				continue
+			}
+			tg := c09Target(rng, variant, st.Ph)
+			if sl := au.scripts[st.R]; len(sl) > 0 && tg < sl[len(sl)-1].target {
+				tg = sl[len(sl)-1].target
+			}
+			au.scripts[st.R] = append(au.scripts[st.R], c09Scripted{a: st.A, target: tg})
+		}
+	}
+	if variant == "deadline" {
+		// A relay that is polled again usually answers with the same bid again: now and then the last
+		// answer is repeated (a new, identical object) once or twice before the relay goes silent.
+		for i := 1; i <= len(aucs); i++ {
+			au := aucs[i]
+			for r := 1; au != nil && r <= len(in.relays); r++ {
+				if len(au.scripts[r]) > 0 && rng.Intn(2) == 0 {
+					lastItem := au.scripts[r][len(au.scripts[r])-1]
+					for k := 1 + rng.Intn(2); k > 0; k-- {
+						au.scripts[r] = append(au.scripts[r], lastItem)
+					}
+				}
+			}
+		}
+	}
+
+	// The lines of one auction (Auction, Deliver..., Return) form a block that is placed at the instant the
+	// auction returned; the blocks and the Serve lines are written in the order of their instants.  Auctions
+	// that overlapped in real time (flag `overlapping` of the Auction line) therefore appear one after the other:
+	// the specification's auctions only interact through the cache, so the steps of different auctions commute
+	// and every interleaving has the same per-auction projections as this one (a reduction that keeps TLC from
+	// carrying the undecided silent steps of one auction through the lines of the other).
+	var timed []c09Timed
+	var block *c09Timed
+	note := func(at time.Time, ev verifsupport.Ev) {
+		ev["sc"] = sc.Sc
+		if block != nil {
+			block.at = at
+			block.evs = append(block.evs, ev)
+			return
+		}
+		timed = append(timed, c09Timed{at: at, evs: []verifsupport.Ev{ev}})
+	}
+	provOut := make([]bool, len(reset.Prov))
+	copy(provOut, reset.Prov)
+	note(time.Time{}, verifsupport.Ev{"ev": "Reset", "variant": variant, "prov": provOut, "mode": reset.Mode, "version": version.String(), "attempt": attempt})
+
+	window := int64(c09Window / time.Millisecond)
+	if widen {
+		window = 1000000
+	}
+	open := map[int]*c09Auction{}
+	failed := false
+	late := false // an AuctionBlock call returned later than time-out + eps
+
+	// join waits for AuctionBlock of au to return and records what the auction did.
+	join := func(au *c09Auction) {
+		if au.joined {
+			return
+		}
+		au.joined = true
+		delete(open, au.i)
+		block = &c09Timed{}
+		defer func() {
+			timed = append(timed, *block)
+			block = nil
+		}()
+		note(au.called, au.line)
+		select {
+		case <-au.done:
+		case <-time.After(c09HangAfter):
+			// an event no action of the specification allows; the call is abandoned
 			au.mu.Lock()
+			dels := len(au.deliveries)
 			if !au.closed {
 				au.closed = true
 				close(au.stop)
 			}
 			au.mu.Unlock()
-			return events, false
+			note(time.Now(), verifsupport.Ev{"ev": "Hung", "i": au.i, "what": "AuctionBlock has not returned", "deliveries": dels})
+			failed = true
+			return
 		}
-
 		au.mu.Lock()
 		dels := append([]c09Delivery{}, au.deliveries...)
+		ret, retAt, results, crash := au.ret, au.retAt, au.results, au.crash
 		au.mu.Unlock()
-		sort.SliceStable(dels, func(i, j int) bool {
-			if dels[i].r == dels[j].r {
-				return dels[i].n < dels[j].n
-			}
-			return dels[i].d < dels[j].d
-		})
-		// per-relay order is the order of the calls; across relays the order of the instants
-		sort.SliceStable(dels, func(i, j int) bool { return dels[i].d < dels[j].d })
-		window := int64(c09Window / time.Millisecond)
-		if widen {
-			window = 1000000
-		}
 		for _, d := range dels {
-			emit(verifsupport.Ev{"ev": "Deliver", "r": d.r, "n": d.n,
+			note(d.at, verifsupport.Ev{"ev": "Deliver", "i": au.i, "r": d.r, "n": d.n,
 				"a":   map[string]interface{}{"kind": d.a.Kind, "val": d.a.Val, "bld": d.a.Bld, "hdr": d.a.Hdr, "feeZero": d.a.FeeZero, "tsOk": d.a.TsOk, "sig": d.a.Sig},
 				"phs": c09Phases(variant, d.d, widen), "d_ms": d.d.Milliseconds(), "w_ms": window})
 		}
-		ev := verifsupport.Ev{"ev": "Return", "clks": c09ReturnPhases(variant, ret, widen), "ret_ms": ret.Milliseconds(),
-			"win": results.win, "prov": results.prov, "allprov": results.allprov, "part": results.part, "err": results.err != nil}
-		emit(ev)
+		if crash != "" || results == nil {
+			note(time.Now(), verifsupport.Ev{"ev": "Crash", "i": au.i, "what": crash})
+			failed = true
+			return
+		}
+		if ret > c09Timeout+c09Eps {
+			late = true
+		}
+		note(retAt, verifsupport.Ev{"ev": "Return", "i": au.i, "clks": c09ReturnPhases(variant, ret, widen), "ret_ms": ret.Milliseconds(),
+			"win": results.win, "prov": results.prov, "allprov": results.allprov, "part": results.part, "err": results.err != nil})
 		if results.err != nil {
-			emit(verifsupport.Ev{"ev": "Crash", "what": "AuctionBlock error: " + results.err.Error()})
-			return events, false
+			note(time.Now(), verifsupport.Ev{"ev": "Crash", "i": au.i, "what": "AuctionBlock error: " + results.err.Error()})
+			failed = true
 		}
 	}
 
-	for _, k := range serves {
-		key, ok := keys[k]
-		if !ok {
-			continue
+	for _, st := range sc.Steps {
+		if failed {
+			break
 		}
-		var bidOut map[string]interface{}
-		func() {
-			defer func() {
-				if p := recover(); p != nil {
-					crashed = true
-					emit(verifsupport.Ev{"ev": "Crash", "what": fmt.Sprint(p)})
+		switch st.Ev {
+		case "Auction":
+			au := aucs[st.I]
+			if len(open) > 0 {
+				// The previous auction is in progress: let it get under way (mostly a little, now and then
+				// until its relays have answered), then call AuctionBlock again.
+				d := time.Duration(rng.Intn(40)) * time.Millisecond
+				if rng.Intn(3) == 0 {
+					d = time.Duration(40+rng.Intn(180)) * time.Millisecond
 				}
-			}()
-			bid, err := svc.BuilderBid(h.ctx, key.slot, key.parent, key.pubkey)
-			switch {
-			case err != nil:
-				bidOut = map[string]interface{}{"r": -3, "n": -3, "k": -3}
-			case bid == nil:
-				bidOut = map[string]interface{}{"r": 0, "n": 0, "k": 0}
-			default:
-				run.mu.Lock()
-				id, known := run.bids[bid]
-				run.mu.Unlock()
-				if known {
-					bidOut = map[string]interface{}{"r": id.r, "n": id.n, "k": id.k}
-				} else {
-					bidOut = map[string]interface{}{"r": -2, "n": -2, "k": -2}
+				time.Sleep(d)
+			}
+			cfgOut := make([]map[string]interface{}, len(au.cfg))
+			for i, c := range au.cfg {
+				cfgOut[i] = map[string]interface{}{"min": c.Min, "key": c.Key, "grace": c.Grace}
+			}
+			// does AuctionBlock of another auction really have not returned yet?
+			overlapping := false
+			for _, other := range open {
+				other.mu.Lock()
+				if !other.closed {
+					overlapping = true
+				}
+				other.mu.Unlock()
+			}
+			open[au.i] = au
+			in.start(au)
+			au.line = verifsupport.Ev{"ev": "Auction", "i": au.i, "key": map[string]interface{}{"s": au.id.S, "p": au.id.P, "v": au.id.V},
+				"cfg": cfgOut, "tab": au.tab, "overlapping": overlapping}
+		case "Return":
+			if au := aucs[st.I]; au != nil {
+				join(au)
+			}
+		case "Serve":
+			var target *c09Auction
+			for _, au := range aucs {
+				if au.id == st.Key {
+					target = au
 				}
 			}
-		}()
-		if crashed {
-			return events, false
+			if target == nil {
+				continue
+			}
+			join(target)
+			if failed {
+				break
+			}
+			type served struct {
+				bid *builderspec.VersionedSignedBuilderBid
+				err error
+				p   interface{}
+			}
+			ch := make(chan served, 1)
+			at := time.Now()
+			go func() {
+				var sv served
+				defer func() {
+					if p := recover(); p != nil {
+						sv.p = p
+					}
+					ch <- sv
+				}()
+				sv.bid, sv.err = in.svc.BuilderBid(in.ctx, target.key.slot, target.key.parent, target.key.pubkey)
+			}()
+			var sv served
+			select {
+			case sv = <-ch:
+			case <-time.After(c09HangAfter):
+				note(time.Now(), verifsupport.Ev{"ev": "Hung", "what": "BuilderBid has not returned"})
+				failed = true
+			}
+			if failed {
+				break
+			}
+			if sv.p != nil {
+				note(time.Now(), verifsupport.Ev{"ev": "Crash", "what": fmt.Sprint(sv.p)})
+				failed = true
+				break
+			}
+			var bidOut map[string]interface{}
+			switch {
+			case sv.err != nil:
+				bidOut = map[string]interface{}{"i": -3, "r": -3, "n": -3}
+			case sv.bid == nil:
+				bidOut = map[string]interface{}{"i": 0, "r": 0, "n": 0}
+			default:
+				in.mu.Lock()
+				id, known := in.bids[sv.bid]
+				in.mu.Unlock()
+				if known {
+					bidOut = map[string]interface{}{"i": id.i, "r": id.r, "n": id.n}
+				} else {
+					bidOut = map[string]interface{}{"i": -2, "r": -2, "n": -2}
+				}
+			}
+			stillOpen := false // was AuctionBlock of some auction in progress when BuilderBid was called?
+			for _, other := range open {
+				other.mu.Lock()
+				if !other.closed || other.retAt.After(at) {
+					stillOpen = true
+				}
+				other.mu.Unlock()
+			}
+			note(at, verifsupport.Ev{"ev": "Serve", "key": map[string]interface{}{"s": st.Key.S, "p": st.Key.P, "v": st.Key.V}, "bid": bidOut, "others_open": stillOpen})
 		}
-		emit(verifsupport.Ev{"ev": "Serve", "key": k, "bid": bidOut})
 	}
-	run.mu.Lock()
-	bad := append([]string{}, run.bad...)
-	run.mu.Unlock()
+	// whatever is still in progress (a history that was cut short)
+	for i := 1; i <= len(aucs); i++ {
+		if au := aucs[i]; au != nil && !au.joined {
+			if _, isOpen := open[au.i]; isOpen {
+				join(au)
+			}
+		}
+	}
+	in.mu.Lock()
+	bad := append([]string{}, in.bad...)
+	in.mu.Unlock()
 	for _, b := range bad {
-		emit(verifsupport.Ev{"ev": "BadRequest", "what": b})
+		note(time.Now(), verifsupport.Ev{"ev": "BadRequest", "what": b})
 	}
-	return events, w.stalledSince(began)
+	sort.SliceStable(timed, func(i, j int) bool { return timed[i].at.Before(timed[j].at) })
+	for _, te := range timed {
+		events = append(events, te.evs...)
+	}
+	// A return later than time-out + eps has no admissible phase.  Under load the goroutines of an auction can be
+	// starved for longer than the watchdog notices: the first two times the history is run again (on a new
+	// instance) like a stalled one; a strategy that really returns late does so every time and is judged then.
+	return events, w.stalledSince(began) || (late && attempt < 2)
 }
 
 // c09Results is the projection of blockauctioneer.Results that the trace carries.
@@ -906,7 +1133,7 @@ func c09Score(s *big.Int) int64 {
 	return s.Int64()
 }
 
-func (cr *c09Results) fill(res *blockauctioneer.Results, run *c09Run, addrToID map[string]int) {
+func (cr *c09Results) fill(res *blockauctioneer.Results, in *c09Instance, au *c09Auction) {
 	cr.win = map[string]interface{}{"r": 0, "n": 0, "score": 0}
 	cr.prov, cr.allprov, cr.part = []int{}, []int{}, []map[string]interface{}{}
 	if res == nil {
@@ -916,16 +1143,17 @@ func (cr *c09Results) fill(res *blockauctioneer.Results, run *c09Run, addrToID m
 		if p == nil {
 			return -1
 		}
-		if id, ok := addrToID[p.Address()]; ok {
+		if id, ok := in.addrToID[p.Address()]; ok {
 			return id
 		}
 		return -1
 	}
 	if wp := res.WinningParticipation; wp != nil {
-		run.mu.Lock()
-		id, known := run.bids[wp.Bid]
-		run.mu.Unlock()
-		if !known {
+		in.mu.Lock()
+		id, known := in.bids[wp.Bid]
+		in.mu.Unlock()
+		if !known || id.i != au.i {
+			// not a bid that a relay gave to THIS auction
 			id = c09BidID{r: -2, n: -2}
 		}
 		cr.win = map[string]interface{}{"r": id.r, "n": id.n, "score": c09Score(wp.Score)}
@@ -943,16 +1171,16 @@ func (cr *c09Results) fill(res *blockauctioneer.Results, run *c09Run, addrToID m
 	sort.Strings(addrs)
 	for _, a := range addrs {
 		p := res.Participation[a]
-		rid, ok := addrToID[a]
+		rid, ok := in.addrToID[a]
 		if !ok {
 			rid = -1
 		}
 		n := -2
 		if p != nil {
-			run.mu.Lock()
-			id, known := run.bids[p.Bid]
-			run.mu.Unlock()
-			if known && id.r == rid {
+			in.mu.Lock()
+			id, known := in.bids[p.Bid]
+			in.mu.Unlock()
+			if known && id.r == rid && id.i == au.i {
 				n = id.n
 			}
 			cr.part = append(cr.part, map[string]interface{}{"r": rid, "n": n, "score": c09Score(p.Score)})
@@ -974,33 +1202,11 @@ func TestVerifC09(t *testing.T) {
 	if len(scenarios) == 0 {
 		return
 	}
-
-	// One set of real services per builder table (the table is part of every scenario's Reset step).
-	harnesses := map[string]*c09Harness{}
-	var hmu sync.Mutex
-	harnessFor := func(table map[string]c09BuilderCfg) *c09Harness {
-		names := make([]string, 0, len(table))
-		for n := range table {
-			names = append(names, n)
-		}
-		sort.Strings(names)
-		k := ""
-		for _, n := range names {
-			k += fmt.Sprintf("%s:%+v;", n, table[n])
-		}
-		hmu.Lock()
-		defer hmu.Unlock()
-		if h, ok := harnesses[k]; ok {
-			return h
-		}
-		h := c09NewHarness(t, ctx, table)
-		harnesses[k] = h
-		return h
-	}
+	env := c09NewEnv(t, ctx)
 
 	w := c09StartWatch()
 	defer close(w.stop)
-	workers := 12
+	workers := 16
 	if len(scenarios) < workers {
 		workers = len(scenarios)
 	}
@@ -1025,9 +1231,9 @@ func TestVerifC09(t *testing.T) {
 					t.Errorf("scenario %d does not start with Reset", sc.Sc)
 					continue
 				}
-				h := harnessFor(sc.Steps[0].Builders)
 				for attempt := 0; ; attempt++ {
-					evs, noisy := h.runScenario(sc, w, attempt)
+					// every attempt runs on an instance of its own
+					evs, noisy := env.runHistory(sc, w, attempt)
 					if noisy && attempt < 3 {
 						noisyMu.Lock()
 						noisyRuns++
